@@ -51,6 +51,7 @@ LEVEL_NOTE = ('Trusted: vf/sched.py (token-passing scheduler; every schedule it 
 
 N_PROBES = 3
 KEYS = ['k1', 'k2']
+SEQ_KEYS = ['k1', 'k2', 'k5']     # k5: constructor bound as a functools.partial (sequential uses)
 SCOPES = ['', 's', 't', 's/t']
 CTOR_LOG = []        # (key, serial) per construction: the log must not keep the objects alive
 _Built = collections.namedtuple('_Built', 'key serial')
@@ -163,6 +164,21 @@ CONFIG = '\n'.join(
     ['c18user2.x = @c18slow()', 'c18mac = @c18slow()', 'c18user3.x = [%c18mac]']) + '\n'
 
 
+def _ctor5(tag):
+  obj = Made(gin.current_scope_str(), len(CTOR_LOG))
+  CTOR_LOG.append(_Built(obj.key, obj.serial))
+  return obj
+
+
+def configure():
+  gin.parse_config(CONFIG)
+  # a constructor bound from Python as a plain callable object (a functools.partial): every
+  # lookup of the binding hands out a copy of it, the singleton is built once all the same
+  import functools  # pylint: disable=g-import-not-at-top
+  gin.bind_parameter('k5/gin.singleton.constructor', functools.partial(_ctor5, 'x'))
+  gin.parse_config('k5/c18user.x = @k5/gin.singleton()')
+
+
 class Rec(config_parser.ParserDelegate):
 
   def configurable_reference(self, scoped_configurable_name, evaluate):
@@ -206,6 +222,11 @@ def do_op(op, reads, uses, yield_now=lambda: None):
       with gin.config_scope(key):
         obj = gin.config.singleton_value(key, _ctor if key == 'k1' else _ctor2)
     uses.append((key, obj))
+  elif kind == 'single5':
+    # the singleton whose constructor was bound from Python as a functools.partial
+    with gin.config_scope('k5'):
+      obj = _user()
+    uses.append(('k5', obj))
   elif kind == 'single-wait':
     # the singleton whose constructor waits for another thread's calls
     with gin.config_scope('k4'):
@@ -243,7 +264,7 @@ def do_op(op, reads, uses, yield_now=lambda: None):
 
 def check_threads(case):
   gin.clear_config()
-  gin.parse_config(CONFIG)
+  configure()
   del CTOR_LOG[:]
   FLAKY[0] = 0
   EVENTS.clear()
@@ -321,7 +342,7 @@ def check_threads(case):
               lambda: f'thread {i}: {sorted(got - final_set)}')
   # ---- equals the sequential run -------------------------------------------------------------
   gin.clear_config()
-  gin.parse_config(CONFIG)
+  configure()
   FLAKY[0] = 0
   EVENTS['go'] = True          # one after another nobody has to wait
   WAIT[0] = lambda pred: None
@@ -374,7 +395,7 @@ class Worker:
 
 def check_sequential(case):
   gin.clear_config()
-  gin.parse_config(CONFIG)
+  configure()
   del CTOR_LOG[:]
   labels = {'kind:sequential'}
   worker = Worker()
@@ -389,7 +410,7 @@ def _check_sequential(case, labels, worker):
   seen_after_clear = False
   cleared_keys = set()
   for op in case['ops']:
-    on_worker = len(op) > 3 and op[3] % 2 == 1 if op[0] in ('single', 'rebind') else (
+    on_worker = len(op) > 3 and op[3] % 2 == 1 if op[0] in ('single', 'single5', 'rebind') else (
         len(op) > 2 and op[2] % 2 == 1)
     run = worker.run if on_worker else (lambda fn: fn())
     if on_worker:
@@ -411,7 +432,7 @@ def _check_sequential(case, labels, worker):
     if op[0] == 'clear':
       def do_clear():
         gin.clear_config(clear_constants=bool(op[1] % 2))
-        gin.parse_config(CONFIG)
+        configure()
       run(do_clear)
       cleared_keys |= set(current)
       current = {}
@@ -483,7 +504,8 @@ def _sequential_case(draw):
                            st.integers(0, 1)).map(list),
                  st.tuples(st.just('clear'), st.integers(0, 1), st.integers(0, 1)).map(list),
                  st.tuples(st.just('rebind'), st.integers(0, 1), st.integers(0, 1),
-                           st.integers(0, 1)).map(list))
+                           st.integers(0, 1)).map(list),
+                 st.tuples(st.just('single5'), st.just(0), st.just(0), st.integers(0, 1)).map(list))
   return {'kind': 'sequential', 'ops': draw(st.lists(op, min_size=1, max_size=8))}
 
 
